@@ -24,7 +24,7 @@ CHECKS = {
             'Over the exact numeric domain of the property (symbolic beta covers the rescaling; sigma = 0 with tau > 0 included) and the listed shapes up to 8+8 players and eight single-player teams (16+16 in thorough): every guard on every path is refuted, no path ends in an exception.',
             TRUST + ' Overflow/underflow of + - * / ** is argued by magnitudes, not solved.', '6/C08'),
     'C09': ('symbolic execution of the real predict_win (single and two-run) + z3 (QF_NRA with Phi axioms) per clause and path; sat models replayed on float code',
-            'For every model and listed shape and all mu, sigma >= 0, beta > 0: one value per team in [0,1] summing to 1; every team permutation (all n!) and player reversal permutes the result; identical teams get identical values (two: exactly 1/2); raising any member\'s mu by any d > 0 never lowers own and never raises another team\'s value.',
+            'For every model and listed shape and all mu, sigma >= 0, beta > 0: one value per team in [0,1] summing to 1; every team permutation (all n!) and player reversal permutes the result; identical teams (also the same list object entered twice) get identical values (two: exactly 1/2); raising any member\'s mu by any d > 0 never lowers own and never raises another team\'s value.',
             TRUST, '6/C09'),
     'C10': ('symbolic execution of the real predict_draw (single and two-run) + z3 (QF_NRA, Phi axioms, A4 symmetric-spread instances, certified Phi enclosure) per clause and path; sat models replayed on float code',
             'For every model and listed shape and all mu, sigma >= 0 (sigma -> 0 inside), beta > 0: result in [0, 1] (two-team bound proved as <= 1+1e-8 for N = 2..5, thorough: 8, 9, 16), order independence (team permutations, player reversal), gap monotonicity for two teams, equalising totals never lowers it.',
@@ -33,14 +33,14 @@ CHECKS = {
             'For every model: on every order/tie pattern of the probabilities of 2-4 teams (5 in thorough) the returned ranks are ints in 1..n consistent with the probabilities, positions are the teams\' own; and probabilities + predict_draw = 1 for the listed shapes with n >= 3.',
             TRUST, '6/C11'),
     'C12': ('symbolic execution of the real predict_* and of the documented closed forms in one path (sx engine) + z3 equality per value; sat models replayed against mpmath',
-            'For every model and the listed shapes (up to 8 teams / 8 players in thorough) and all mu, sigma >= 0, beta > 0: every value returned by predict_win, predict_draw and predict_rank is the same real-valued term as the documented closed form.',
+            'For every model and the listed shapes (up to 8 teams / 8 players in thorough) and all mu, sigma >= 0, beta > 0: every value returned by predict_win, predict_draw and predict_rank is the same real-valued term as the documented closed form, also when one team list or one rating object is entered twice.',
             TRUST + ' predict_rank: the rank assignment is stubbed here (decided in C11).', '6/C12'),
     'C13': ('symbolic execution of the real rate()/predict_* over lazy kind proxies (z3 Int tags per argument position, fork at first use); per-path three-valued evaluation of the property\'s definition of malformed; side-effect monitors',
             'The paths partition the whole argument grammar (containers, team shapes, foreign ratings, element kinds at every position, both selectors): rejected paths are malformed for every completion of the uninspected positions, accepted paths well-formed, no other exception class escapes, and a rejected call leaves every rating and the model untouched.',
             'Trusted: CPython semantics of the executed operations on the menu representatives; the menus (printed in the evidence) stand for their kinds.', '6/C13'),
-    'C14': ('symbolic execution of the real rate()/predict_* with write/inspection monitors + two-run z3 equality (history vs fresh model, original vs rebuilt ratings)',
-            'On every path of every call variant (per-call tau symbolic, limit_sigma in {None,True,False}) no model attribute is written, ids/names/hash are never consulted, and a call after an arbitrary earlier call (through the same model, a differently configured sibling instance or another model class) returns the same terms as on a fresh model in a pristine import. Thread interleavings and hash seeds are not explored; only the non-interference premises are checked.',
-            TRUST + ' Interleavings/PYTHONHASHSEED themselves: outside (paper argument from the checked premises).', '6/C14'),
+    'C14': ('symbolic execution of the real rate()/predict_* with write/inspection monitors + two-run z3 equality (history vs fresh model, original vs rebuilt ratings); thread interleavings: z3 over integer positions of the recorded shared accesses of two calls, sat orders forced on real threads',
+            'On every path of every call variant (per-call tau symbolic, limit_sigma in {None,True,False}) no model attribute is written, ids/names/hash are never consulted, and a call after an arbitrary earlier call (through the same model, a differently configured sibling instance or another model class) returns the same terms as on a fresh model in a pristine import. Two threads, six call pairs per model on one shared model: no interleaving of the recorded shared accesses (any number of context switches) lets a read observe a foreign write with another value than alone; a racy twin is found and reproduced in every job.',
+            TRUST + ' Outside: three or more threads, PYTHONHASHSEED (only the premise that nothing hash-order dependent runs is checked), state the access recorder cannot see.', '6/C14'),
     'C15': ('two-run symbolic execution of the real rate() in one path (sx engine) + z3 equality of result terms; sat models replayed on float code',
             'For symbolic t >= 0 (the t == 0 fork included), symbolic model-level tau, all b, b0: rate with the per-call option returns the same terms as a model constructed with that option; omitted/None uses the model\'s own.',
             TRUST, '6/C15'),
@@ -51,7 +51,7 @@ CHECKS = {
             'For symbolic k in [1e-3, 1e3]: rate() of PL/BT-full/BT-part is homogeneous of degree 1 and all three predictions of all five models are scale-free; for symbolic shift s with equal team sizes: posterior mu shifts by s, sigma and predictions are unchanged, all five models; listed shapes and outcomes.',
             TRUST, '6/C16'),
     'C17': ('forward-error symbolic execution of the real phi_major source (z3 reals with rounding variables, certified grid enclosures) + symbolic execution of the real v/w/vt/wt with analytic axiom instances (Mills, truncated-mean) per path; sat models replayed against mpmath',
-            'CDF: relative error <= 1e-12 on [-37.5, 38] under the standard model of floating point with 4-ulp libm. v, w, vt, wt for x in [-40,40], t in [1e-8,1e-2]: defined, v >= 0, w >= 0, vt and exact V~ in [-t-x, t-x] (so within 2t), v within 2% of V on its asymptotic branch, guards fire exactly at the documented constants. Not claimed: w, wt <= 1, the 1e-6 / 20t float-accuracy clauses, dense sweeps.',
+            'CDF: relative error <= 1e-12 on [-37.5, 38] under the standard model of floating point with 4-ulp libm. v, w, vt, wt for x in [-40,40], t in [1e-8,1e-2]: defined, v >= 0, w >= 0, vt and exact V~ in [-t-x, t-x] (so within 2t), v within 2% of V on its asymptotic branch, guards fire exactly at the documented constants, w <= 1 (Sampford), wt in [0, 1+t^2], v and w are the mathematical V and W above their guard (term identity), |wt - exact W~| <= 20t over the reals, denominators of vt/wt formed without avoidable cancellation. Not claimed: the float part of the 1e-6 / 1e-13/t accuracy clauses, dense sweeps.',
             TRUST + ' Mode E assumes the standard FP model without underflow and 4-ulp erf/erfc.', '6/C17'),
     'C18': ('symbolic execution of the real comparison dunders / ordinal() on exact binary64 proxies (z3 QF_FP, RNE) + per-path equivalence with the ordinal specification; foreign operands via lazy kind proxy; sorted() paths',
             'For each of the five rating classes and each of < <= > >= == != over ALL finite doubles mu, sigma: result <=> the corresponding comparison of mu-3*sigma (== : both fields equal); ordinal(z) = mu - z*sigma for symbolic z; foreign operands refused with ValueError / unequal; sorted() of 3 (4) ratings is ordinal-monotone on every path.',
